@@ -112,10 +112,14 @@ def judge(sc, run, sim, res):
       if p['end'] is None:
         continue
       mine = adds_by_uid.get(uid, [])
+      # where the event landed is what counts (front for lifo, back for fifo), not which deque method was used
+      # (with nothing pending both ends are the same place, so either deque method is right then)
       want = 'append' if p['kind'] == 'fifo' else 'appendleft'
-      if len(mine) != 1 or mine[0][2] != want:
+      ok = len(mine) == 1 and (mine[0][2] == want or mine[0][6] == 0)
+      if not ok:
         res.violate('post-not-queued-as-posted', {'kind': p['kind'], 'n': len(mine)},
-                    '%s: post_%s of %s (%s) appears in the queue history as %s' % (name, p['kind'], uid, p['sig'], [(m[1], m[2]) for m in mine]))
+                    '%s: post_%s of %s (%s) appears in the queue history as %s (thread, method, index after, pending before)' % (
+                      name, p['kind'], uid, p['sig'], [(m[1], m[2], m[5], m[6]) for m in mine]))
         return
     if q['not_front']:
       seq, tn, got, queue = q['not_front'][0]
